@@ -37,6 +37,7 @@ type Contract struct {
 	Trusted         bool // contract assumed, body not verified (external or out-of-subset)
 	Inline          bool // callers inline the body instead of using the contract
 	NoSafety        bool // do not generate no-panic obligations (for spec helpers)
+	Rec             bool // recursive spec function: translated to define-fun-rec
 	SafetyOnly      bool
 	Props           []string
 	Assumes         []string // free-text assumptions to be listed in evidence
@@ -67,7 +68,7 @@ type RegionSpec struct {
 
 var clauseKeywords = map[string]bool{"func": true, "requires": true, "ensures": true, "modifies": true, "loop": true,
 	"pure": true, "trusted": true, "inline": true, "nosafety": true, "props": true, "assume": true, "region": true,
-	"from": true, "to": true, "ghost": true, "lemma": true, "vars": true, "safetyonly": true, "field": true, "monitor": true, "end": true, "observe": true, "deadreturn": true, "locked": true, "prune": true, "atcall": true, "atsend": true, "timeout": true, "atreturn": true, "callers": true}
+	"from": true, "to": true, "ghost": true, "lemma": true, "vars": true, "safetyonly": true, "field": true, "monitor": true, "end": true, "observe": true, "deadreturn": true, "locked": true, "prune": true, "atcall": true, "atsend": true, "timeout": true, "atreturn": true, "callers": true, "rec": true}
 
 type rawLine struct {
 	text string
@@ -206,6 +207,10 @@ func ParseContractFile(path string) ([]*Contract, []*Decl, error) {
 			}
 		case "pure":
 			cur.Pure = true
+		case "rec":
+			cur.Rec = true
+			cur.Pure = true
+			cur.NoSafety = true
 		case "trusted":
 			cur.Trusted = true
 		case "inline":
